@@ -22,7 +22,7 @@ var lexFragments = []string{
 	"=", "==", "===", "!", "!=", "<", "<=", ">", ">=", "&", "&&", "|", "||", "+", "++", "+=", "-", "--", "-=", "*", "/", "%", ",", ";", ":", ".",
 	"(", ")", "{", "}", "[", "]", " ", "  ", "\t", "\n", "\r", "\r\n", "\n\n",
 	"//", "// c", "//c \n", "// trailing   \n", "/", "/*", "/* x */",
-	"//\t", "// \t", "//\t\n", "// a\t \n", "//\v\f", "//\u00a0", "// b\u00a0\n", "//\u2028", "//\u3000\u0085", "// c\xa0", "// d\xc2", "// e\x80\xa8", "//\u1680 \r\n", "// f\u200b",
+	"// déjà", "// Å\n", "// 谢谢你\nx", "// смех \n", "// zażółć gęślą", "// à\u00a0\n", "//\t", "// \t", "//\t\n", "// a\t \n", "//\v\f", "//\u00a0", "// b\u00a0\n", "//\u2028", "//\u3000\u0085", "// c\xa0", "// d\xc2", "// e\x80\xa8", "//\u1680 \r\n", "// f\u200b",
 	`"`, `""`, `"a"`, `"a\"b"`, `'`, `''`, `'a'`, `'q"q'`, "`", "``", "`a`", "`a\\`b`", "`a\nb`", "`\\\\`",
 	`"\x41"`, `"\x4"`, `"\x4G"`, `"\xZZ"`, `"\x22"`, `"\x5c"`, `"\x0a"`, `"\xe9"`, `"A"`, `"é"`, `"\u12"`, `"\u12G4"`, `"😀"`, `"\"`,
 	`"\u{41}"`, `"\u{1F600}"`, `"\u{}"`, `"\u{110000}"`, `"\u{1234567}"`, `"\u{12`, `"\u{zz}"`, `"\u{22}"`, `"\u{D800}"`, `"\n\t\r\\\'\0\q"`, "\"a\\\nb\"", `"\`, `"\x`, `"\u`, `"\u{`,
